@@ -1,0 +1,305 @@
+//go:build verif
+
+package sniproxy
+
+// Entry points for the verification harnesses of the stream properties
+// (routing, mailbox, session table, side connections). Build tag "verif" only;
+// nothing here is compiled into a normal build.
+
+import (
+	"context"
+	"errors"
+	"net"
+	"strings"
+	"sync"
+
+	"github.com/gorilla/websocket"
+	"shanhu.io/g/errcode"
+)
+
+// VerifIsRejectedDomain is isRejectedDomain.
+func VerifIsRejectedDomain(name string) bool { return isRejectedDomain(name) }
+
+type verifFuncDialer struct {
+	f func(name, addr string) (net.Conn, error)
+}
+
+func (d *verifFuncDialer) dial(
+	_ context.Context, hello *TLSHelloInfo, asAddr string,
+) (net.Conn, error) {
+	return d.f(hello.ServerName, asAddr)
+}
+
+// VerifHostConn runs proxy.hostConn on conn with a dialer that calls dial.
+func VerifHostConn(
+	ctx context.Context, conn net.Conn,
+	dial func(name, addr string) (net.Conn, error),
+) error {
+	return newProxy(&verifFuncDialer{f: dial}).hostConn(ctx, conn)
+}
+
+// VerifIsNameRejected tells if err is errNameRejected.
+func VerifIsNameRejected(err error) bool { return err == errNameRejected }
+
+type verifMarker struct{ what string }
+
+func (m *verifMarker) Error() string { return "verif-marker:" + m.what }
+
+// VerifServerDial runs Server.dial for domain on a server built from config
+// (DialHome and DialForward are replaced by markers when set) whose endpoint
+// table holds one entry per name in endpoints. No network is touched: every
+// endpoint is a side-dialling client whose token function reports which
+// endpoint was asked to dial. The result is one of "home", "forward:<addr>",
+// "endpoint:<name>", "notfound", "nolookup" or "err:<text>".
+func VerifServerDial(
+	config *ServerConfig, hasHome, hasForward bool, endpoints []string,
+	domain, asAddr string,
+) string {
+	cfg := *config
+	cfg.DialHome, cfg.DialForward = nil, nil
+	if hasHome {
+		cfg.DialHome = func(context.Context) (net.Conn, error) {
+			return nil, &verifMarker{"home"}
+		}
+	}
+	if hasForward {
+		cfg.DialForward = func(_ context.Context, fwd string) (net.Conn, error) {
+			return nil, &verifMarker{"forward:" + fwd}
+		}
+	}
+	s := NewServer(&cfg)
+	for _, name := range endpoints {
+		name := name
+		ep := &endpointClient{options: &Options{Siding: true}}
+		ep.setToken(func() (string, error) {
+			return "", &verifMarker{"endpoint:" + name}
+		})
+		s.endpoints[name] = ep
+	}
+	_, err := s.dial(
+		context.Background(), &TLSHelloInfo{ServerName: domain}, asAddr,
+	)
+	if err == nil {
+		return "err:dial returned a connection"
+	}
+	var m *verifMarker
+	if errors.As(err, &m) {
+		return m.what
+	}
+	msg := err.Error()
+	if i := strings.Index(msg, "verif-marker:"); i >= 0 {
+		return msg[i+len("verif-marker:"):]
+	}
+	if errcode.IsNotFound(err) {
+		return "notfound"
+	}
+	if errcode.IsInternal(err) && strings.Contains(msg, "not accepting") {
+		return "nolookup"
+	}
+	return "err:" + msg
+}
+
+// VerifOffice drives a connMailOffice and a sessionID.
+type VerifOffice struct {
+	ids   *sessionID
+	o     *connMailOffice
+	boxes []*connMailBox
+}
+
+// NewVerifOffice creates an empty office.
+func NewVerifOffice() *VerifOffice {
+	return &VerifOffice{ids: newSessionID(), o: newConnMailOffice()}
+}
+
+// Next is sessionID.next.
+func (v *VerifOffice) Next() uint64 { return v.ids.next() }
+
+// NewBox is connMailOffice.newBox; it returns the handle of the box.
+func (v *VerifOffice) NewBox(id, key uint64) int {
+	b := v.o.newBox(&sessionKey{ID: id, Key: key})
+	v.boxes = append(v.boxes, b)
+	return len(v.boxes) - 1
+}
+
+type verifTagConn struct {
+	net.Conn
+	tag uint64
+}
+
+// Deliver is connMailOffice.deliver with a connection named tag; it returns
+// "ok", "notfound", "mismatch" or "err:<text>".
+func (v *VerifOffice) Deliver(id, key, tag uint64) string {
+	err := v.o.deliver(&sessionKey{ID: id, Key: key}, &verifTagConn{tag: tag})
+	switch {
+	case err == nil:
+		return "ok"
+	case errcode.IsNotFound(err):
+		return "notfound"
+	case errcode.IsInvalidArg(err):
+		return "mismatch"
+	}
+	return "err:" + err.Error()
+}
+
+// Receive is connMailBox.receive with a live context when wait is true; with
+// wait false the context is already cancelled, so it never blocks. It returns
+// ("conn", tag), ("closed", 0), ("cancelled", 0) or ("err:<text>", 0).
+func (v *VerifOffice) Receive(h int, wait bool) (string, uint64) {
+	if h < 0 || h >= len(v.boxes) {
+		return "badhandle", 0
+	}
+	ctx, cancel := context.WithCancel(context.Background())
+	if !wait {
+		cancel()
+	}
+	defer cancel()
+	conn, err := v.boxes[h].receive(ctx)
+	if err == nil {
+		return "conn", conn.(*verifTagConn).tag
+	}
+	if err == context.Canceled {
+		return "cancelled", 0
+	}
+	if errcode.IsTimeOut(err) {
+		return "closed", 0
+	}
+	return "err:" + err.Error(), 0
+}
+
+// Pending tells what a receive on box h can return right now, without
+// consuming anything: whether a connection is queued and whether the box is
+// closed.
+func (v *VerifOffice) Pending(h int) (queued bool, closed bool) {
+	if h < 0 || h >= len(v.boxes) {
+		return false, false
+	}
+	b := v.boxes[h]
+	select {
+	case <-b.closed:
+		closed = true
+	default:
+	}
+	return len(b.ch) > 0, closed
+}
+
+// CleanUp is connMailBox.cleanUp.
+func (v *VerifOffice) CleanUp(h int) bool {
+	if h < 0 || h >= len(v.boxes) {
+		return false
+	}
+	v.boxes[h].cleanUp()
+	return true
+}
+
+// Keys lists the session ids that have a box in the office.
+func (v *VerifOffice) Keys() []uint64 {
+	v.o.mu.Lock()
+	defer v.o.mu.Unlock()
+	var ks []uint64
+	for k := range v.o.m {
+		ks = append(ks, k)
+	}
+	return ks
+}
+
+// VerifSessionIDs runs goroutines x each calls of one sessionID.next
+// concurrently and returns everything handed out, per goroutine.
+func VerifSessionIDs(goroutines, each int) [][]uint64 {
+	ids := newSessionID()
+	out := make([][]uint64, goroutines)
+	var wg sync.WaitGroup
+	start := make(chan struct{})
+	for g := 0; g < goroutines; g++ {
+		wg.Add(1)
+		go func(g int) {
+			defer wg.Done()
+			<-start
+			for i := 0; i < each; i++ {
+				out[g] = append(out[g], ids.next())
+			}
+		}(g)
+	}
+	close(start)
+	wg.Wait()
+	return out
+}
+
+// VerifConns drives a connections table.
+type VerifConns struct {
+	cs    *connections
+	ident map[*connection]uint64
+}
+
+// NewVerifConns creates an empty table.
+func NewVerifConns() *VerifConns {
+	return &VerifConns{cs: newConnections(), ident: make(map[*connection]uint64)}
+}
+
+func verifConnsErr(err error) string {
+	switch {
+	case err == nil:
+		return "ok"
+	case err == errAlreadyShutdown:
+		return "shutdown"
+	case errcode.IsNotFound(err):
+		return "notfound"
+	case strings.HasPrefix(err.Error(), "session id conflict"):
+		return "conflict"
+	}
+	return "err:" + err.Error()
+}
+
+// Add registers a new connection object with the given session id; ident
+// names the object.
+func (v *VerifConns) Add(session, ident uint64) string {
+	c := newConnection(session)
+	err := v.cs.add(c)
+	if err != nil {
+		c.cleanup()
+		return verifConnsErr(err)
+	}
+	v.ident[c] = ident
+	return "ok"
+}
+
+// Get is connections.get; on success it returns the session id the found
+// object reports and the object's ident.
+func (v *VerifConns) Get(id uint64) (string, uint64, uint64) {
+	c, err := v.cs.get(id)
+	if err != nil {
+		return verifConnsErr(err), 0, 0
+	}
+	return "found", c.session(), v.ident[c]
+}
+
+// Remove is connections.remove.
+func (v *VerifConns) Remove(id uint64) string {
+	return verifConnsErr(v.cs.remove(id))
+}
+
+// Shutdown is connections.shutdown; it returns (session, ident) of everything
+// handed back.
+func (v *VerifConns) Shutdown() [][2]uint64 {
+	m := v.cs.shutdown()
+	out := [][2]uint64{}
+	for id, c := range m {
+		if c.session() != id {
+			out = append(out, [2]uint64{^uint64(0), v.ident[c]})
+			continue
+		}
+		out = append(out, [2]uint64{c.session(), v.ident[c]})
+		c.cleanup()
+	}
+	return out
+}
+
+// VerifSideConn is a sideConn with its half-close.
+type VerifSideConn interface {
+	net.Conn
+	CloseWrite() error
+}
+
+// VerifNewSideConn wraps a websocket connection as newSideConn does.
+func VerifNewSideConn(conn *websocket.Conn, addr string) VerifSideConn {
+	return newSideConn(conn, addr)
+}
